@@ -113,6 +113,8 @@ let res_str = function
   | RErr e -> "err:" ^ err_s e
   | RPanic -> "panic"
 
+let cur_store : store ref = ref (init_store false)
+
 let parse_op (snaps : store array ref) (toks : string list) : op =
   match toks with
   | ["addproxy"; a; h; i] -> OAddProxy (num a, optn h, optn i)
@@ -127,6 +129,13 @@ let parse_op (snaps : store array ref) (toks : string list) : op =
   | ["commit"; n; e; tag; clr; rl] ->
     OCommit (num n, ranges_of rl, (match tag with "m" -> TagMigrating | "i" -> TagImporting | _ -> TagNone), num e, bool_of clr)
   | ["commitnth"; n; j; clr] -> OCommitNth (num n, num j, bool_of clr)
+  | ["commitstale"; n; j; clr; delta] ->
+    (* the j-th pending migration's ranges with an epoch that is delta too old (saturating) *)
+    (match nth_out_entry !cur_store (num n) (num j) with
+     | Some m ->
+       let e = int_of_n m.ms_meta.mm_epoch - int_of_string delta in
+       OCommit (num n, m.ms_ranges, TagMigrating, nn (if e < 0 then 0 else e), bool_of clr)
+     | None -> OCommit (num n, [], TagMigrating, nn 0, bool_of clr))
   | ["autochange"; n; k; ps] -> OAutoChange (num n, num k, pairs_of ps)
   | ["autoscaleout"; n; k] -> OAutoScaleOut (num n, num k)
   | ["replace"; a; _lim; ch] -> OReplaceFailed (num a, optn ch)
@@ -152,6 +161,7 @@ let run_case (line : string) : string =
     let s = ref (init_store ordered) in
     let snaps = ref [| !s |] in
     let outs = Stdlib.List.map (fun optxt ->
+        cur_store := !s;
         let o = parse_op snaps (split_ws optxt) in
         let (s', r) = step !s o in
         s := s';
